@@ -519,6 +519,7 @@ func (pf Producer[T]) GenerateParallel(
 	init := Operation(func(ctx context.Context) {
 		wctx, cancel := context.WithCancel(ctx)
 		wg := &WaitGroup{}
+		opts.abort = cancel
 
 		pf = pf.WithRecover()
 		var zero T
@@ -534,9 +535,7 @@ func (pf Producer[T]) GenerateParallel(
 				}
 				return value, nil
 			}).
-			Operation(func(err error) {
-				ft.WhenCall(ers.Is(err, io.EOF, ers.ErrCurrentOpAbort), cancel)
-			}).
+			Ignore().
 			StartGroup(wctx, wg, opts.NumWorkers)
 
 		wg.Operation().PostHook(func() { cancel(); pipe.Close() }).Background(ctx)
